@@ -546,6 +546,8 @@ func (x *exec) enterLoop(fr *frame, li *loopInfo, sin *State) *State {
 			continue
 		}
 		s.cells[a] = x.freshVal("h."+a.Comment, old.Typ, s)
+		// whatever a variable refers to is a live object (or nil)
+		x.assume(s, x.aliveVal(s, s.cells[a]))
 	}
 	for _, in := range b.Instrs {
 		phi, ok := in.(*ssa.Phi)
